@@ -473,8 +473,7 @@ def check_worker(ctx):
                       "a requested flush handles retirements unless the requester deferred them", b.where(f), {"expr": e.show()[:80]})
 
 
-def check_retire(ctx):
-    inst = "C19.retire"
+def check_retire(ctx, inst="C19.retire", parts=("worker", "putback", "handover")):
     b = ctx.fn("write_buffer::flush_worker_shards", inst)
     if b is not None:
         fpd = ctx.sites(b, R.call("write_buffer::flush_pending_deletions"), inst, floor=1)
@@ -592,11 +591,10 @@ def check_retire(ctx):
             ctx.check(ok, inst, "FOLLOW", b.path, "the collected entry is the one the loop over the whole batch is looking at", b.where(pu), det)
 
 
-def check_queue_writers(ctx):
+def check_queue_writers(ctx, inst="C19.retire/queue"):
     """RetirementQueue.pending is shared by all workers and not covered by the flush mutex: whoever holds its guard may only add
     to it (extend / push / append) or take it as a whole in flush_pending_deletions; an assignment or a truncation through the
     guard discards retirements other workers queued meanwhile, and a dropped retirement is never retried"""
-    inst = "C19.retire/queue"
     prog = ctx.prog
     ADD = ("Extend::extend", "Vec::push", "Vec::append", "Vec::extend_from_slice")
     READ = ("Vec::is_empty", "Vec::len", "Deref::deref", "DerefMut::deref_mut", "slice::iter", "Vec::as_slice", "slice::len", "slice::is_empty")
@@ -627,8 +625,12 @@ def check_queue_writers(ctx):
             if any(call_matches(n.ev, x) for x in ADD):
                 ctx.ok(inst, "FIELDW", owner, "the retirement queue is only added to", b.where(n.id))
             elif call_matches(n.ev, "mem::take") or call_matches(n.ev, "mem::replace") or call_matches(n.ev, "mem::swap"):
-                ctx.check(path_matches(owner, "write_buffer::flush_pending_deletions"), inst, "FIELDW", owner,
-                          "the retirement queue is emptied only by flush_pending_deletions (which processes what it took)", b.where(n.id))
+                pds = [m.id for m in b.calls() if call_matches(m.ev, "write_buffer::process_deletions")]
+                before = bool(pds) and all(p_ in A.reach(b, A.succs(b, n.id), sensitive=False)[0] for p_ in pds) and \
+                    not any(n.id in A.reach(b, A.succs(b, p_), sensitive=False)[0] for p_ in pds)
+                ctx.check(path_matches(owner, "write_buffer::flush_pending_deletions") and before, inst, "FIELDW", owner,
+                          "the retirement queue is emptied only by flush_pending_deletions, and only to hand what it took to process_deletions "
+                          "(a swap / replace afterwards discards what other workers queued during the pass)", b.where(n.id))
             else:
                 ctx.fail(inst, "FIELDW", owner, "unreviewed operation on the shared retirement queue: " + R.callee_name(n.ev).rsplit("::", 2)[-1], b.where(n.id),
                          {"callee": R.callee_name(n.ev)})
